@@ -86,8 +86,8 @@ def replay(path):
     from .. import ctl
     d = json.load(open(path))["replay"]
     chk = Check(PID, "quick")
-    seed_, bm, eb = d["sched"]
-    h = ctl.run_case(d["shape"], d["oa"], chk.scratch, ctl.RandomPolicy(seed_, burst_max=bm, env_bias=eb))
+    seed_, bm, eb, cw = d["sched"]
+    h = ctl.run_case(d["shape"], d["oa"], chk.scratch, ctl.RandomPolicy(seed_, burst_max=bm, env_bias=eb, ctrl_weight=cw))
     h.sid = 1
     results, tl = SC.validate_traces("c01replay", [d["shape"]], [h], fixobs=FIXOBS, props=("TLaunchSafe", "TFinalAbsorbing", "TNoRunAfterFinal"))
     for e in h.trace:
